@@ -5,6 +5,10 @@ import re
 import subprocess
 import time
 
+from . import proc
+
+VERUS_MEM_GB = float(os.environ.get('VT_VERUS_MEM_GB', '20'))
+
 VERIFICATION_FAILURES = [
     (re.compile(r'postcondition not satisfied'), 'postcondition'),
     (re.compile(r'unable to prove post-?condition of closure'), 'closure-postcondition'),
@@ -48,16 +52,7 @@ def run_verus(path, rlimit=None, multiple_errors=20, timeout=1500, extra=None):
         cmd += extra
     t0 = time.time()
     env = dict(os.environ)
-    try:
-        p = subprocess.run(cmd, stdout=subprocess.PIPE, stderr=subprocess.PIPE, timeout=timeout,
-                           cwd=os.path.dirname(path), env=env)
-        out, err, rc = p.stdout.decode(errors='replace'), p.stderr.decode(errors='replace'), p.returncode
-        timed_out = False
-    except subprocess.TimeoutExpired as e:
-        out = (e.stdout or b'').decode(errors='replace')
-        err = (e.stderr or b'').decode(errors='replace')
-        rc = -9
-        timed_out = True
+    out, err, rc, timed_out = proc.run(cmd, timeout, cwd=os.path.dirname(path), env=env, mem_gb=VERUS_MEM_GB)
     wall = time.time() - t0
     js = None
     try:
